@@ -261,16 +261,26 @@ type alpha struct {
 // reversed without rebinding (instrumented build); on the plain build both functions do nothing.
 var BindMapOrderToggle = func() (setReverse func(bool), unbind func()) { return func(bool) {}, func() {} }
 
-var typedTokens = []string{"Source: ", "source: ", "SOURCE: ", "Package: ", "Version: ", "VERSION: ", "Architecture: ", "Binary: ", "Files:", "Checksums-Sha256:", "Build-Depends: ", "Depends: ", "Installed-Size: ", "Essential: ",
-	"d41d8cd98f00b204e9800998ecf8427e 10 f_1.dsc", "d41d 10 devel optional f", "12", "-3", "1:1.0-1", "a (>= 1) | b [amd64]", "((", "x y", "any all", "\n", " ", "yes"}
+// typedTokens: field names (with and without case variants), values of every typed kind, separators.
+// The quick tier uses the first typedQuick tokens (the most discriminating ones), thorough all of them.
+var typedTokens = []string{"Source: ", "source: ", "SOURCE: ", "Package: ", "Version: ", "Architecture: ", "Files:", "Build-Depends: ", "Depends: ", "Installed-Size: ",
+	"d41d8cd98f00b204e9800998ecf8427e 10 f_1.dsc", "12", "1:1.0-1", "a (>= 1) | b [amd64]", "((", "\n", " ", "x y",
+	// thorough only:
+	"VERSION: ", "Binary: ", "Checksums-Sha256:", "Essential: ", "d41d 10 devel optional f", "-3", "any all", "yes"}
 
-func alphabets() []alpha {
+const typedQuick = 18
+
+func alphabets(quick bool) []alpha {
+	typed := typedTokens
+	if quick {
+		typed = typedTokens[:typedQuick]
+	}
 	return []alpha{
 		{[]string{"version.Parse"}, []string{"0", "1", "a", ".", "+", "~", "-", ":", " ", "\t", "é", "٣"}, 5, 7, false},
 		{[]string{"dependency.ParseArch", "dependency.ParseArchitectures"}, []string{"a", "-", " ", "any", "all", "\n", "é", "!"}, 6, 8, false},
 		{[]string{"dependency.Parse"}, []string{"a", "b1", " ", ",", "|", "(", ")", "[", "]", "<", ">", "!", ":", "=", "$", "{", "}", "\n", "-", "é", ">=", "\t"}, 4, 5, false},
 		{[]string{"control.ParagraphReader", "control.ParagraphReader.Next"}, []string{"A", ":", " ", "\n", "#", ".", "\r", "\t", "é"}, 6, 8, false},
-		{[]string{"control.ParseDsc", "control.ParseChanges", "control.ParseControl", "control.ParseBinaryIndex", "control.ParseSourceIndex", "deb.Control"}, typedTokens, 4, 5, true},
+		{[]string{"control.ParseDsc", "control.ParseChanges", "control.ParseControl", "control.ParseBinaryIndex", "control.ParseSourceIndex", "deb.Control"}, typed, 4, 4, true},
 		{[]string{"changelog.Parse", "changelog.ParseOne"}, []string{"hello", " (", "1.0-1", ")", " unstable", ";", " urgency=low", "\n", "  * x", " -- ", "A <a@b>", "  ", "Mon, 02 Jan 2006 15:04:05 +0100", " ", "=", ",",
 			"hello (1.0-1) unstable; urgency=low\n", " -- A <a@b>  Mon, 02 Jan 2006 15:04:05 +0100\n", "  * change\n"}, 4, 5, false},
 	}
@@ -367,7 +377,7 @@ func watchdog(r *mc.Run) {
 
 func runTotality(r *mc.Run) {
 	go watchdog(r)
-	for _, a := range alphabets() {
+	for _, a := range alphabets(r.Quick()) {
 		a := a
 		L := r.Pick(a.q, a.t)
 		n := len(a.symbols)
